@@ -293,7 +293,11 @@ class TimedList(Generic[Item]):
         # object columns (e.g. Quaver keysound lists), so copy those too.
         df = self.df.copy(deep=True)
         for col in df.columns[df.dtypes == object]:
-            df[col] = [deepcopy(v, memo) for v in df[col]]
+            # (kept an object column: a plain list would be re-typed, e.g. a
+            # column of integers and NaN would come back as floats)
+            df[col] = pd.Series(
+                [deepcopy(v, memo) for v in df[col]], index=df.index, dtype=object
+            )
         return self.__class__(df)
 
     def deepcopy(self):
